@@ -33,6 +33,7 @@ ENTRY = dict(
             "40 distinct schedule names, switch/parameter names at positions 2i / 2i+1, 42-byte bitmap": "table",
             "parsing of '%H:%M' strings": "correspondence (strptime trusted)",
             "model = ScheduleDay / SchedulesStructure / EcoMAX._add_schedules / Schedule.commit": "correspondence",
+            "every schedule a well-formed schedules response carries (any header bytes, any number of entries, the entry at any place) is decoded, in order, and offered by the device for editing and commit": "correspondence (wire layout)",
         },
         assumptions=COMMON_ASSUME + [
             "'an error changes nothing' is claimed for 48-slot days only (every day the decoder produces); on a shorter hand-made day list assignment raises IndexError after a partial edit -- modelled (set_partial_on_short_day) and compared with the implementation, not part of the statement",
